@@ -326,34 +326,47 @@ Record switches := { wait_cfg_unguarded : bool; stale_close_unfiltered : bool; d
   failed_start_shares_session : bool;
   (* Configure hands its result to Start (the send on cfgErrC) on every way it can end; one switch per way
      that omits it: accepted, the plugin's hook failed, the stub refused the mask (unhandled events) *)
-  cfg_ok_unsent : bool; cfg_hookerr_unsent : bool; cfg_reject_unsent : bool }.
+  cfg_ok_unsent : bool; cfg_hookerr_unsent : bool; cfg_reject_unsent : bool;
+  (* close() waits for the server loop by receiving from srvErrC — the one-slot channel Run() receives from —
+     instead of doneC: a blocked Run and the teardown compete for the single value *)
+  close_takes_srv_result : bool }.
 
 Definition fixed : switches :=
   {| wait_cfg_unguarded := false; stale_close_unfiltered := false; dead_conn_reused := false;
      failed_start_shares_session := false;
-     cfg_ok_unsent := false; cfg_hookerr_unsent := false; cfg_reject_unsent := false |}.
+     cfg_ok_unsent := false; cfg_hookerr_unsent := false; cfg_reject_unsent := false;
+     close_takes_srv_result := false |}.
 (* the code as pinned in round 1: all three defects present *)
 Definition pinned : switches :=
   {| wait_cfg_unguarded := true; stale_close_unfiltered := true; dead_conn_reused := true;
      failed_start_shares_session := false;
-     cfg_ok_unsent := false; cfg_hookerr_unsent := false; cfg_reject_unsent := false |}.
+     cfg_ok_unsent := false; cfg_hookerr_unsent := false; cfg_reject_unsent := false;
+     close_takes_srv_result := false |}.
 (* the repaired code with the session number advanced in close() instead of Start() *)
 Definition shared_session : switches :=
   {| wait_cfg_unguarded := false; stale_close_unfiltered := false; dead_conn_reused := false;
      failed_start_shares_session := true;
-     cfg_ok_unsent := false; cfg_hookerr_unsent := false; cfg_reject_unsent := false |}.
+     cfg_ok_unsent := false; cfg_hookerr_unsent := false; cfg_reject_unsent := false;
+     close_takes_srv_result := false |}.
 (* the repaired code with explicit sends in Configure, the one on the rejection path missing *)
 Definition reject_unsent : switches :=
   {| wait_cfg_unguarded := false; stale_close_unfiltered := false; dead_conn_reused := false;
      failed_start_shares_session := false;
-     cfg_ok_unsent := false; cfg_hookerr_unsent := false; cfg_reject_unsent := true |}.
+     cfg_ok_unsent := false; cfg_hookerr_unsent := false; cfg_reject_unsent := true;
+     close_takes_srv_result := false |}.
+(* the repaired code whose close() receives from srvErrC *)
+Definition srv_result_shared : switches :=
+  {| wait_cfg_unguarded := false; stale_close_unfiltered := false; dead_conn_reused := false;
+     failed_start_shares_session := false;
+     cfg_ok_unsent := false; cfg_hookerr_unsent := false; cfg_reject_unsent := false;
+     close_takes_srv_result := true |}.
 (* the switch values of the CURRENT code in /repo: read from the shapes of Start and connClosed on
    every run (Model/StubConsts.v; a switch is off only when the repaired shape is recognised) *)
 Definition faithful : switches :=
   {| wait_cfg_unguarded := life_wait_cfg_unguarded; stale_close_unfiltered := life_stale_close_unfiltered;
      dead_conn_reused := life_dead_conn_reused; failed_start_shares_session := life_session_not_per_client;
      cfg_ok_unsent := life_cfg_ok_unsent; cfg_hookerr_unsent := life_cfg_hookerr_unsent;
-     cfg_reject_unsent := life_cfg_reject_unsent |}.
+     cfg_reject_unsent := life_cfg_reject_unsent; close_takes_srv_result := life_close_takes_srv_result |}.
 
 (* stub.conn: nil, the socket dialled for generation g (live), or that socket closed / peer gone *)
 Inductive conn := CNone | CLive (g : nat) | CDead (g : nat).
@@ -366,8 +379,9 @@ Definition conn_gen (c : conn) : option nat := match c with CNone => None | CLiv
    Registering = RegisterPlugin under the registration time-out; AwaitConfigure = <-cfgErrC).
    Configured: started, lock free.  Closing: inside close(), lock held, waiting for the server loop.
    AwaitLost: inside Start, lock held; Configure has been handled but its result was never handed to
-   Start, which still sits in its wait: only a lost connection can release it. *)
-Inductive phase := Idle | Dialing | MuxUp | Registering | AwaitConfigure | AwaitLost | Configured | Closing.
+   Start, which still sits in its wait: only a lost connection can release it.
+   ClosingStuck: inside close(), lock held, waiting for a server result that a blocked Run() has taken. *)
+Inductive phase := Idle | Dialing | MuxUp | Registering | AwaitConfigure | AwaitLost | Configured | Closing | ClosingStuck.
 
 Inductive result := ResOk | ResErr | ResAlready.
 
@@ -382,16 +396,19 @@ Record state := {
   fired : list nat;         (* the plugin's close call-back ran for these clients (newest first) *)
   established : list nat;   (* clients whose session reached Configured (newest first) *)
   waiters : list nat;       (* Wait calls blocked on the doneC of that session *)
-  last_start : option result  (* result of the most recent Start that returned *)
+  last_start : option result; (* result of the most recent Start that returned *)
+  runners : list nat          (* Run calls blocked on the srvErrC of that session (Run = Start, then this receive) *)
 }.
 
 Definition init : state :=
   {| gen := 0; started := false; sconn := CNone; ph := Idle; cli_open := false; pending := [];
-     closer := None; fired := []; established := []; waiters := []; last_start := None |}.
+     closer := None; fired := []; established := []; waiters := []; last_start := None; runners := [] |}.
 
 Inductive action :=
 (* calls made by the plugin's threads *)
 | AStart | AStop | AWait
+| ARunWait                          (* Run(): its Start has returned nil, Run now receives from srvErrC *)
+| IRunTakes                         (* the blocked Run() takes the server result that close() is waiting for *)
 (* the ttrpc client of generation g runs its close call-back: stub.connClosed *)
 | ADeliver (g : nat)
 (* environment, as observed by the stub *)
@@ -406,7 +423,7 @@ Inductive action :=
 Definition set_ph (s : state) (p : phase) : state :=
   {| gen := gen s; started := started s; sconn := sconn s; ph := p; cli_open := cli_open s; pending := pending s;
      closer := closer s; fired := fired s; established := established s; waiters := waiters s;
-     last_start := last_start s |}.
+     last_start := last_start s; runners := runners s |}.
 
 (* the newest client goes away (closed by the stub, or its receive loop fails):
    it emits its one close notification *)
@@ -415,7 +432,7 @@ Definition emit_close (s : state) : state :=
     {| gen := gen s; started := started s; sconn := sconn s; ph := ph s; cli_open := false;
        pending := pending s ++ [gen s];
        closer := closer s; fired := fired s; established := established s; waiters := waiters s;
-       last_start := last_start s |}
+       last_start := last_start s; runners := runners s |}
   else s.
 
 (* Start returns an error: the deferred clean-ups close client, server, listener and mux
@@ -425,14 +442,14 @@ Definition fail_start (sw : switches) (s : state) : state :=
   {| gen := gen s1; started := false;
      sconn := if dead_conn_reused sw then kill (sconn s1) else CNone;
      ph := Idle; cli_open := false; pending := pending s1; closer := None; fired := fired s1;
-     established := established s1; waiters := waiters s1; last_start := Some ResErr |}.
+     established := established s1; waiters := waiters s1; last_start := Some ResErr; runners := runners s1 |}.
 
 (* close() with started = true: everything is closed, then it waits for the server loop *)
 Definition begin_close (s : state) (by_ : option nat) : state :=
   let s1 := emit_close s in
   {| gen := gen s1; started := true; sconn := kill (sconn s1); ph := Closing; cli_open := false;
      pending := pending s1; closer := by_; fired := fired s1; established := established s1;
-     waiters := waiters s1; last_start := last_start s1 |}.
+     waiters := waiters s1; last_start := last_start s1; runners := runners s1 |}.
 
 Fixpoint remove_first (g : nat) (l : list nat) : list nat :=
   match l with [] => [] | x :: r => if Nat.eqb x g then r else x :: remove_first g r end.
@@ -442,6 +459,9 @@ Definition memn (g : nat) (l : list nat) : bool := existsb (Nat.eqb g) l.
    x with g <= x < gen was closed in between *)
 Definition shares_session (s : state) (g : nat) : bool :=
   negb (existsb (fun x => Nat.leb g x && Nat.ltb x (gen s)) (established s)).
+
+Fixpoint remove_all (g : nat) (l : list nat) : list nat :=
+  match l with [] => [] | x :: r => if Nat.eqb x g then remove_all g r else x :: remove_all g r end.
 
 Definition lock_free (s : state) : bool :=
   match ph s with Idle | Configured => true | _ => false end.
@@ -460,19 +480,19 @@ Definition step (sw : switches) (s : state) (a : action) : state :=
   | AStart, Configured =>            (* "stub already started" *)
       {| gen := gen s; started := started s; sconn := sconn s; ph := ph s; cli_open := cli_open s;
          pending := pending s; closer := closer s; fired := fired s; established := established s;
-         waiters := waiters s; last_start := Some ResAlready |}
+         waiters := waiters s; last_start := Some ResAlready; runners := runners s |}
   | EDialOk, Dialing =>
       {| gen := gen s; started := false; sconn := CLive (S (gen s)); ph := MuxUp; cli_open := false;
          pending := pending s; closer := None; fired := fired s; established := established s;
-         waiters := waiters s; last_start := last_start s |}
+         waiters := waiters s; last_start := last_start s; runners := runners s |}
   | EDialFail, Dialing =>            (* nothing was set up: no client, no notification, conn stays nil *)
       {| gen := gen s; started := false; sconn := CNone; ph := Idle; cli_open := false;
          pending := pending s; closer := None; fired := fired s; established := established s;
-         waiters := waiters s; last_start := Some ResErr |}
+         waiters := waiters s; last_start := Some ResErr; runners := runners s |}
   | ISetupOk, MuxUp =>               (* the client of the next generation exists from here on *)
       {| gen := S (gen s); started := false; sconn := sconn s; ph := Registering; cli_open := true;
          pending := pending s; closer := None; fired := fired s; established := established s;
-         waiters := waiters s; last_start := last_start s |}
+         waiters := waiters s; last_start := last_start s; runners := runners s |}
   | ISetupFail, MuxUp => fail_start sw s
   | ERegOk, Registering => if conn_live (sconn s) then set_ph s AwaitConfigure else s
   | ERegRefused, Registering => if conn_live (sconn s) then fail_start sw s else s
@@ -481,13 +501,13 @@ Definition step (sw : switches) (s : state) (a : action) : state :=
       fail_start sw (emit_close {| gen := gen s; started := started s; sconn := kill (sconn s); ph := ph s;
                                    cli_open := cli_open s; pending := pending s; closer := closer s;
                                    fired := fired s; established := established s; waiters := waiters s;
-                                   last_start := last_start s |})
+                                   last_start := last_start s; runners := runners s |})
   | ECfgOk, AwaitConfigure =>
       if conn_live (sconn s) then
         if cfg_ok_unsent sw then set_ph s AwaitLost else
         {| gen := gen s; started := true; sconn := sconn s; ph := Configured; cli_open := cli_open s;
            pending := pending s; closer := None; fired := fired s; established := gen s :: established s;
-           waiters := waiters s; last_start := Some ResOk |}
+           waiters := waiters s; last_start := Some ResOk; runners := runners s |}
       else s
   | ECfgErr, AwaitConfigure =>
       if conn_live (sconn s) then (if cfg_hookerr_unsent sw then set_ph s AwaitLost else fail_start sw s) else s
@@ -497,7 +517,7 @@ Definition step (sw : switches) (s : state) (a : action) : state :=
       let s1 := emit_close {| gen := gen s; started := started s; sconn := kill (sconn s); ph := ph s;
                               cli_open := cli_open s; pending := pending s; closer := closer s;
                               fired := fired s; established := established s; waiters := waiters s;
-                              last_start := last_start s |} in
+                              last_start := last_start s; runners := runners s |} in
       if wait_cfg_unguarded sw then s1 (* nobody tells Start: it keeps waiting, holding the lock *)
       else fail_start sw s1
   (* ---- established session ---- *)
@@ -505,34 +525,49 @@ Definition step (sw : switches) (s : state) (a : action) : state :=
       emit_close {| gen := gen s; started := started s; sconn := kill (sconn s); ph := ph s;
                     cli_open := cli_open s; pending := pending s; closer := closer s;
                     fired := fired s; established := established s; waiters := waiters s;
-                    last_start := last_start s |}
+                    last_start := last_start s; runners := runners s |}
   | AStop, Configured => begin_close s None
   | AWait, Configured =>
       {| gen := gen s; started := started s; sconn := sconn s; ph := ph s; cli_open := cli_open s;
          pending := pending s; closer := closer s; fired := fired s; established := established s;
-         waiters := gen s :: waiters s; last_start := last_start s |}
+         waiters := gen s :: waiters s; last_start := last_start s; runners := runners s |}
+  | ARunWait, Configured =>
+      {| gen := gen s; started := started s; sconn := sconn s; ph := ph s; cli_open := cli_open s;
+         pending := pending s; closer := closer s; fired := fired s; established := established s;
+         waiters := waiters s; last_start := last_start s; runners := gen s :: runners s |}
   | IServeDone, Closing =>
+      (* the server loop has returned: its result goes into srvErrC, doneC is closed; close() goes on.
+         A Run blocked on this session gets the result — unless close() itself receives from srvErrC and wins *)
       {| gen := gen s; started := false; sconn := CNone; ph := Idle; cli_open := false;
          pending := pending s; closer := None;
          fired := match closer s with Some g => g :: fired s | None => fired s end;
-         established := established s; waiters := []; last_start := last_start s |}
+         established := established s; waiters := []; last_start := last_start s;
+         runners := if close_takes_srv_result sw then runners s else remove_all (gen s) (runners s) |}
+  | IRunTakes, Closing =>
+      (* only when close() receives from srvErrC and a Run is blocked on this session: Run wins, returns;
+         doneC is closed (Wait calls return); close() waits for ever *)
+      if close_takes_srv_result sw && memn (gen s) (runners s) then
+        {| gen := gen s; started := started s; sconn := sconn s; ph := ClosingStuck; cli_open := cli_open s;
+           pending := pending s; closer := closer s; fired := fired s; established := established s;
+           waiters := []; last_start := last_start s; runners := remove_all (gen s) (runners s) |}
+      else s
   (* ---- connClosed of client g ---- *)
   | ADeliver g, Idle =>
       if memn g (pending s) then
         {| gen := gen s; started := started s; sconn := sconn s; ph := ph s; cli_open := cli_open s;
            pending := remove_first g (pending s); closer := closer s; fired := g :: fired s;
-           established := established s; waiters := waiters s; last_start := last_start s |}
+           established := established s; waiters := waiters s; last_start := last_start s; runners := runners s |}
       else s
   | ADeliver g, Configured =>
       if memn g (pending s) then
         let s1 := {| gen := gen s; started := started s; sconn := sconn s; ph := ph s; cli_open := cli_open s;
                      pending := remove_first g (pending s); closer := closer s; fired := fired s;
-                     established := established s; waiters := waiters s; last_start := last_start s |} in
+                     established := established s; waiters := waiters s; last_start := last_start s; runners := runners s |} in
         if Nat.eqb g (gen s) || stale_close_unfiltered sw || (failed_start_shares_session sw && shares_session s g)
         then begin_close s1 (Some g)
         else {| gen := gen s1; started := started s1; sconn := sconn s1; ph := ph s1; cli_open := cli_open s1;
                 pending := pending s1; closer := closer s1; fired := g :: fired s1;
-                established := established s1; waiters := waiters s1; last_start := last_start s1 |}
+                established := established s1; waiters := waiters s1; last_start := last_start s1; runners := runners s1 |}
       else s
   (* everything else: the call blocks on the lock / returns without effect (Stop and Wait
      when not started), or the event cannot occur in this phase *)
@@ -577,6 +612,26 @@ Fixpoint drain (sw : switches) (fuel : nat) (s : state) : state :=
   end.
 Definition drain_fuel (s : state) : nat := 2 * length (pending s) + 4.
 Definition settle (sw : switches) (s : state) : state := drain sw (drain_fuel s) s.
+
+(* the same with the other outcome of the competition for the server result (only when close()
+   receives from srvErrC and a Run is blocked on the session): the blocked Run wins *)
+Fixpoint drain_r (sw : switches) (fuel : nat) (s : state) : state :=
+  match fuel with
+  | O => s
+  | S f =>
+      match ph s with
+      | Closing =>
+          if close_takes_srv_result sw && memn (gen s) (runners s) then step sw s IRunTakes
+          else drain_r sw f (step sw s IServeDone)
+      | Idle | Configured =>
+          match pending s with
+          | g :: _ => drain_r sw f (step sw s (ADeliver g))
+          | [] => s
+          end
+      | _ => s
+      end
+  end.
+Definition settle_r (sw : switches) (s : state) : state := drain_r sw (drain_fuel s) s.
 
 Fixpoint count_occ_nat (g : nat) (l : list nat) : nat :=
   match l with [] => 0 | x :: r => (if Nat.eqb x g then 1 else 0) + count_occ_nat g r end.
@@ -627,8 +682,24 @@ Definition run_start (sw : switches) (s : state) (b : behaviour) : state :=
       if is_registering s1 && negb (conn_live (sconn s1)) then step sw s1 EConnLost else s1
   end.
 
+(* Run against a runtime end behaving as b: as run_start, and at the moment its Start returns nil
+   (the step that ends a pending Start in Configured) Run goes on to its receive from srvErrC *)
+Definition is_configured (s : state) : bool := match ph s with Configured => true | _ => false end.
+Definition step_run (sw : switches) (s : state) (a : action) : state :=
+  let s' := step sw s a in
+  if start_pending s && is_configured s' then step sw s' ARunWait else s'.
+Definition run_run (sw : switches) (s : state) (b : behaviour) : state :=
+  match ph s with
+  | Configured => step sw s AStart
+  | _ =>
+      let s1 := fold_left (step_run sw) (start_actions b) s in
+      if is_registering s1 && negb (conn_live (sconn s1)) then step sw s1 EConnLost else s1
+  end.
+
 Inductive op :=
 | OStart (b : behaviour)      (* Start, then wait until everything under way has happened *)
+| ORun (b : behaviour)        (* Run in a thread of its own: its Start as above; if that succeeds Run stays blocked
+                                 until the session ends *)
 | OStop | OWait | OLose       (* Stop / a Wait call in the background / the runtime drops an established session *)
 | OStopStart (b : behaviour)  (* Stop immediately followed by Start: the close notification of the
                                  stopped session may run before or after the new Start *)
@@ -642,12 +713,13 @@ Record obs := {
   o_class : oclass;
   o_started : option bool;  (* IsStarted; None = the call does not return (the lock is held for ever) *)
   o_closes : nat;           (* close call-backs seen so far *)
-  o_waiting : nat           (* Wait calls still blocked *)
+  o_waiting : nat;          (* Wait calls still blocked *)
+  o_running : nat           (* Run calls still blocked *)
 }.
 
 Definition observe (k : oclass) (s : state) : obs :=
   {| o_class := k; o_started := if lock_free s then Some (started s) else None;
-     o_closes := length (fired s); o_waiting := length (waiters s) |}.
+     o_closes := length (fired s); o_waiting := length (waiters s); o_running := length (runners s) |}.
 
 Definition start_class (s : state) : oclass :=
   if start_pending s then KBlocked
@@ -657,30 +729,42 @@ Definition serve_done (sw : switches) (s : state) : state :=
   match ph s with Closing => step sw s IServeDone | _ => s end.
 
 (* the possible outcomes of one operation (more than one only where the schedule matters) *)
+(* Stop / connection loss: returned, or — the lock is not free afterwards — the teardown hangs *)
+Definition end_class (s : state) : oclass := if lock_free s then KReturned else KBlocked.
+
+(* the outcomes of one operation for one way [st] of letting everything under way happen *)
+Definition do_op_with (st : switches -> state -> state) (sw : switches) (s : state) (o : op) : list (state * obs) :=
+  match o with
+  | OStart b =>
+      let s1 := st sw (run_start sw s b) in [(s1, observe (start_class s1) s1)]
+  | ORun b =>
+      let s1 := st sw (run_run sw s b) in [(s1, observe (start_class s1) s1)]
+  | OStop => let s1 := st sw (step sw s AStop) in [(s1, observe (end_class s1) s1)]
+  | OWait => let s1 := step sw s AWait in [(s1, observe KReturned s1)]
+  | OLose => let s1 := st sw (step sw s EConnLost) in [(s1, observe KReturned s1)]
+  | OStopStart b =>
+      let s0 := serve_done sw (step sw s AStop) in
+      let late := st sw (run_start sw s0 b) in              (* the new Start wins the lock *)
+      let early := st sw (run_start sw (st sw s0) b) in     (* the old notification runs first *)
+      [(late, observe (start_class late) late); (early, observe (start_class early) early)]
+  | OStartStart f b =>
+      let s0 := run_start sw s f in
+      if start_pending s0 then [(s0, observe KBlocked s0)]
+      else
+        let late := st sw (run_start sw s0 b) in
+        let early := st sw (run_start sw (st sw s0) b) in
+        [(late, observe (start_class late) late); (early, observe (start_class early) early)]
+  end.
+
+(* the possible outcomes of one operation (more than one only where the schedule matters) *)
 Definition do_op (sw : switches) (s : state) (o : op) : list (state * obs) :=
   if negb (lock_free s) then [(s, observe KBlocked s)]
-  else
-    match o with
-    | OStart b =>
-        let s1 := settle sw (run_start sw s b) in [(s1, observe (start_class s1) s1)]
-    | OStop => let s1 := settle sw (step sw s AStop) in [(s1, observe KReturned s1)]
-    | OWait => let s1 := step sw s AWait in [(s1, observe KReturned s1)]
-    | OLose => let s1 := settle sw (step sw s EConnLost) in [(s1, observe KReturned s1)]
-    | OStopStart b =>
-        let s0 := serve_done sw (step sw s AStop) in
-        let late := settle sw (run_start sw s0 b) in              (* the new Start wins the lock *)
-        let early := settle sw (run_start sw (settle sw s0) b) in (* the old notification runs first *)
-        [(late, observe (start_class late) late); (early, observe (start_class early) early)]
-    | OStartStart f b =>
-        let s0 := run_start sw s f in
-        if start_pending s0 then [(s0, observe KBlocked s0)]
-        else
-          let late := settle sw (run_start sw s0 b) in
-          let early := settle sw (run_start sw (settle sw s0) b) in
-          [(late, observe (start_class late) late); (early, observe (start_class early) early)]
-    end.
+  else do_op_with settle sw s o ++
+       (if close_takes_srv_result sw then do_op_with settle_r sw s o else []).
 
-Definition is_blocked (o : obs) : bool := match o_class o with KBlocked => true | _ => false end.
+(* nothing is attempted any more once an operation did not return or left the stub lock held *)
+Definition is_blocked (o : obs) : bool :=
+  match o_class o, o_started o with KBlocked, _ => true | _, None => true | _, _ => false end.
 
 (* all possible observation sequences of a sequence of operations; nothing is attempted any
    more once an operation did not return *)
